@@ -152,6 +152,9 @@ class ConformalElectionModel(BaseElectionModel.BaseElectionModel, ABC):
 
         # so we need to make sure that they have the correct fixed effects
         all_units_shuffled = pd.concat([reporting_units_shuffled, nonreporting_units], axis=0)
+        # only the training rows are used to fit, so only their fixed effect values are active: for the featurizer
+        # the conformalization rows are rows that we predict on
+        all_units_shuffled.iloc[train_rows : self.n_train, all_units_shuffled.columns.get_loc("reporting")] = 0  # noqa: E203
         x_all = interval_featurizer.prepare_data(
             all_units_shuffled, center_features=True, scale_features=False, add_intercept=self.add_intercept
         )
